@@ -1219,6 +1219,39 @@ def total_record_repeats_a_value_once_per_way_of_matching():
     return out != [{"x": [1], "z": [0, 100]}]
 
 
+def _stream(fn, sel):
+    out = []
+    with probing(sel, env={sel.split()[0]: fn}) as prb:
+        prb.subscribe(lambda d: out.append(next(iter(d.values()))))
+        fn()
+    return out
+
+
+def name_bound_twice_by_one_target_reports_the_last_value_twice():
+    """C02 (recorded): the reports of for / with / import targets read the variable back after the statement has bound everything, so a
+    name that one target binds twice is reported twice with its final value."""
+    def f1():
+        for x, x in [(1, 2), (3, 4)]:
+            pass
+    got = _stream(f1, "f1 > x")
+    print("events:", got, "binding history: [1, 2, 3, 4]")
+    return got != [1, 2, 3, 4]
+
+
+def binding_by_a_statement_that_then_fails_is_not_reported():
+    """C02 (recorded): `for a, (b, c) in [(1, 2)]` binds a = 1 and then fails to unpack 2; no event for a (read-back forms only)."""
+    def g4():
+        try:
+            for a, (b, c) in [(1, 2)]:
+                pass
+        except TypeError:
+            pass
+        return a
+    got = _stream(g4, "g4 > a")
+    print("events:", got, "binding history: [1]")
+    return got != [1]
+
+
 # case -> properties (the scenario corpus of DESIGN 2.6: every case is replayed natively by the quick check of its properties)
 CASES = {
     "tuple_unpack_generator": ["C01"], "tuple_unpack_dict": ["C01"], "starred_target": ["C01"], "subscript_index_twice": ["C01"],
@@ -1240,7 +1273,7 @@ CASES = {
     "overlay_left_while_a_generator_is_suspended_still_receives_its_events": ["C05"], "generator_shell_is_transparent": ["C09", "C05", "C01", "C06", "C02", "C07", "C03", "C17"], "probe_silenced_when_an_earlier_generator_finishes": ["C02", "C06"],
     "suspended_generator_in_a_local_outlives_its_frame": ["C09"], "slice_bounds_evaluated_once": ["C01", "C02"], "match_statement_under_tooling": ["C01", "C10", "C02"], "provenance_follows_python_scoping": ["C10"], "augmented_attribute_store_is_a_binding": ["C04", "C02"],
     "stale_generator_answer_is_not_remembered": ["C05", "C07", "C02", "C09"],
-    "hidden_temporaries_keep_generator_alive": ["C09"], "non_ascii_variable_refused": ["C10"], "total_record_repeats_a_value_once_per_way_of_matching": ["C07"], "same_name_at_two_placements": ["C14"],
+    "hidden_temporaries_keep_generator_alive": ["C09"], "non_ascii_variable_refused": ["C10"], "name_bound_twice_by_one_target_reports_the_last_value_twice": ["C02"], "binding_by_a_statement_that_then_fails_is_not_reported": ["C02"], "total_record_repeats_a_value_once_per_way_of_matching": ["C07"], "same_name_at_two_placements": ["C14"],
 }
 
 
